@@ -187,4 +187,117 @@ theorem czEdges_spanEq_graphSTab (n : Nat) (A : Adj) (edges : List (Nat × Nat))
     rw [hn] at hi
     exact InSpan.eqv _ _ (spn_gen (graphSTab n A) i hi) (rows i hi).symm
 
+/-! ### the edge list of a simple graph -/
+
+theorem edgeParity_cons (e : Nat × Nat) (l : List (Nat × Nat)) (i j : Nat) :
+    edgeParity (e :: l) i j = xor (decide ((e.1 = i ∧ e.2 = j) ∨ (e.1 = j ∧ e.2 = i))) (edgeParity l i j) := by
+  have key : ∀ (l : List (Nat × Nat)) (b c : Bool),
+      l.foldl (fun acc e => xor acc (decide ((e.1 = i ∧ e.2 = j) ∨ (e.1 = j ∧ e.2 = i)))) (xor b c) =
+      xor b (l.foldl (fun acc e => xor acc (decide ((e.1 = i ∧ e.2 = j) ∨ (e.1 = j ∧ e.2 = i)))) c) := by
+    intro l
+    induction l with
+    | nil => intro b c; rfl
+    | cons e' l ih => intro b c; simp only [List.foldl]; rw [Bool.xor_assoc, ih]
+  unfold edgeParity
+  simp only [List.foldl]
+  rw [Bool.false_xor]
+  have := key l (decide ((e.1 = i ∧ e.2 = j) ∨ (e.1 = j ∧ e.2 = i))) false
+  rw [Bool.xor_false] at this
+  exact this
+
+/-- in a duplicate-free list of pairs `(u, v)` with `u < v`, the parity of the edges joining `i < j` says whether `(i, j)` occurs -/
+theorem edgeParity_nodup (l : List (Nat × Nat)) (hl : l.Nodup) (hlt : ∀ e, e ∈ l → e.1 < e.2) (i j : Nat) (hij : i < j) :
+    edgeParity l i j = decide ((i, j) ∈ l) ∧ edgeParity l j i = decide ((i, j) ∈ l) := by
+  induction l with
+  | nil => simp [edgeParity]
+  | cons e l ih =>
+    obtain ⟨i1, i2⟩ := ih (List.nodup_cons.mp hl).2 (fun e' he' => hlt e' (List.mem_cons_of_mem _ he'))
+    have he := hlt e List.mem_cons_self
+    have hnot := (List.nodup_cons.mp hl).1
+    rw [edgeParity_cons, edgeParity_cons, i1, i2]
+    by_cases h : e = (i, j)
+    · subst h
+      have : (i, j) ∉ l := hnot
+      simp [this]
+    · have hm1 : ¬ ((e.1 = i ∧ e.2 = j) ∨ (e.1 = j ∧ e.2 = i)) := by
+        rintro (⟨a, b⟩ | ⟨a, b⟩)
+        · exact h (Prod.ext a b)
+        · omega
+      have hm2 : ¬ ((e.1 = j ∧ e.2 = i) ∨ (e.1 = i ∧ e.2 = j)) := fun hh => hm1 (hh.symm)
+      have hne : ¬ ((i, j) = e) := fun hh => h hh.symm
+      simp [hm1, hm2, hne]
+
+theorem mem_pairsLt_iff (n : Nat) (a b : Nat) : (a, b) ∈ STab.pairsLt n ↔ a < b ∧ b < n := by
+  simp only [STab.pairsLt, List.mem_flatMap, List.mem_range, List.mem_map, List.mem_filter, decide_eq_true_eq,
+    Prod.mk.injEq]
+  constructor
+  · rintro ⟨j, _, k, ⟨hk, hjk⟩, e1, e2⟩
+    subst e1 e2; exact ⟨hjk, hk⟩
+  · rintro ⟨h1, h2⟩
+    exact ⟨a, by omega, b, ⟨h2, h1⟩, rfl, rfl⟩
+
+theorem pairsLt_nodup (n : Nat) : (STab.pairsLt n).Nodup := by
+  unfold STab.pairsLt
+  rw [List.nodup_flatMap]
+  constructor
+  · intro j _
+    exact (List.Nodup.filter _ List.nodup_range).map (fun a b h => by simpa using h)
+  · have hne : (List.range n).Pairwise (· ≠ ·) := List.nodup_range
+    refine hne.imp ?_
+    intro a b hab
+    show List.Disjoint _ _
+    intro x hx hx'
+    simp only [List.mem_map] at hx hx'
+    obtain ⟨_, _, e1⟩ := hx
+    obtain ⟨_, _, e2⟩ := hx'
+    rw [← e2] at e1
+    exact hab (by simpa using congrArg Prod.fst e1)
+
+/-- the edge list of a simple graph has distinct endpoints and its parity matrix is the adjacency matrix -/
+theorem edgesOf_spec (n : Nat) (A : Adj) (hsym : ∀ i j, i < n → j < n → A i j = A j i) (hirr : ∀ i, i < n → A i i = false) :
+    (∀ e, e ∈ S2G.edgesOf n A → e.1 ≠ e.2) ∧ ∀ i j, i < n → j < n → A i j = edgeParity (S2G.edgesOf n A) i j := by
+  have hnd : (S2G.edgesOf n A).Nodup := List.Nodup.filter _ (pairsLt_nodup n)
+  have hlt : ∀ e, e ∈ S2G.edgesOf n A → e.1 < e.2 := by
+    intro e he
+    have := (List.mem_filter.mp he).1
+    exact ((mem_pairsLt_iff n e.1 e.2).mp this).1
+  have hmem : ∀ i j, i < j → j < n → ((i, j) ∈ S2G.edgesOf n A ↔ A i j = true) := by
+    intro i j h1 h2
+    simp only [S2G.edgesOf, List.mem_filter, mem_pairsLt_iff]
+    exact ⟨fun h => h.2, fun h => ⟨⟨h1, h2⟩, h⟩⟩
+  refine ⟨fun e he => Nat.ne_of_lt (hlt e he), fun i j hi hj => ?_⟩
+  rcases Nat.lt_trichotomy i j with h | h | h
+  · rw [(edgeParity_nodup _ hnd hlt i j h).1]
+    cases hA : A i j
+    · symm; apply decide_eq_false; intro hm; rw [(hmem i j h hj).mp hm] at hA; cases hA
+    · symm; apply decide_eq_true; exact (hmem i j h hj).mpr hA
+  · subst h
+    rw [hirr i hi]
+    symm
+    -- no edge joins a vertex to itself
+    have : ∀ l : List (Nat × Nat), (∀ e, e ∈ l → e.1 < e.2) → edgeParity l i i = false := by
+      intro l
+      induction l with
+      | nil => intro _; rfl
+      | cons e l ih =>
+        intro hl
+        rw [edgeParity_cons, ih (fun e' he' => hl e' (List.mem_cons_of_mem _ he'))]
+        have := hl e List.mem_cons_self
+        have hm : decide ((e.1 = i ∧ e.2 = i) ∨ (e.1 = i ∧ e.2 = i)) = false := by
+          apply decide_eq_false
+          rintro (⟨a, b⟩ | ⟨a, b⟩) <;> omega
+        rw [hm]; rfl
+    exact this _ hlt
+  · rw [(edgeParity_nodup _ hnd hlt j i h).2, hsym i j hi hj]
+    cases hA : A j i
+    · symm; apply decide_eq_false; intro hm; rw [(hmem j i h hi).mp hm] at hA; cases hA
+    · symm; apply decide_eq_true; exact (hmem j i h hi).mpr hA
+
+/-- **for every simple graph**: `_graph_to_density_pure` (|+…+⟩, one CZ per edge of `list(graph.edges)`) and
+    `_graph_to_stabilizer_pure` (`[I | A]`) generate the same signed group -/
+theorem czEdges_edgesOf_spanEq (n : Nat) (A : Adj) (hsym : ∀ i j, i < n → j < n → A i j = A j i)
+    (hirr : ∀ i, i < n → A i i = false) : SpanEq (czEdges (plusSTab n) (S2G.edgesOf n A)) (graphSTab n A) := by
+  obtain ⟨h1, h2⟩ := edgesOf_spec n A hsym hirr
+  exact czEdges_spanEq_graphSTab n A _ h1 h2
+
 end Graphiq
